@@ -204,8 +204,19 @@ FIXED = [
 ]
 
 
+# symbolic coefficients with a REPEATED eigenvalue whose characteristic polynomial is not a pure power of one linear factor:
+# (l**2 - a)**2, (l - p)**2 (l - 1), (l - p)**2 (l + p)
+_PTS = [{"a": "4", "p": "1/3", "q": "1/2"}, {"a": "9/4", "p": "3/4", "q": "-1/3"}]
+FIXED_PARAM = [
+    ("fixed-param", task([["0", "a", "0", "0"], ["1", "0", "0", "0"], ["1", "0", "0", "a"], ["0", "0", "1", "0"]], ["1", "0", "0", "1"],
+                         params=["a", "p", "q"], points=_PTS)),
+    ("fixed-param", task([["p", "1", "0"], ["0", "p", "1"], ["0", "0", "1"]], ["1", "2", "1"], params=["a", "p", "q"], points=_PTS)),
+    ("fixed-param", task([["0", "p", "1"], ["p", "0", "0"], ["0", "0", "p"]], ["1", "0", "2"], params=["a", "p", "q"], points=_PTS)),
+]
+
+
 def generate(rng, count):
-    out = [{"family": f, "task": t} for f, t in FIXED]
+    out = [{"family": f, "task": t} for f, t in FIXED + FIXED_PARAM]
     weights = [w for _, _, w in FAMILIES]
     while len(out) < count:
         name, fn, _ = rng.choices(FAMILIES, weights=weights)[0]
